@@ -29,6 +29,10 @@ def plan(tier, work, stats, rng):
     for t in seqs:
         for v in (0, 1):
             inputs.append(("all/%d" % v, R.render(t, v)))
+    # lexical openers: every sequence over tokens that OPEN a literal / comment / heredoc / regexp (the file may end inside)
+    for t in R.proggen(work, "all", stats, maxlen=3, tokens=R.TOKENS_OPENERS):
+        for v in (0, 1):
+            inputs.append(("openers/%d" % v, R.render(t, v)))
     # call sites: every argument list (positional / splat / keyword / double splat) against 7 parameter lists
     for i, t in enumerate(R.proggen(work, "calls", stats, maxlen=3 if tier == "quick" else 4)):
         inputs.append(("calls", R.render(t, 2)))
